@@ -2,6 +2,7 @@
  *  P <list> | <base or ->     _lou_resolveTable(list, base): prints "P path|path.." or "P FAIL"
  *  A <list>                   lou_free(); translate "a" in dotsIO mode: prints "A <cell>" or "A FAIL errors=<0|1>"
  *  A+ <list>                  same without the lou_free()
+ *  E <list>                   lou_free(); lou_getEmphClasses(list) compiles the translation part alone: prints "E <0|1>"
  */
 #include "tbl.h"
 int
@@ -35,6 +36,12 @@ main(void) {
 				free(r);
 				printf("\n");
 			}
+		} else if (h_line[0] == 'E') { /* E <list>: lou_free(); compile the translation part only (lou_getEmphClasses) */
+			char const **cl;
+			lou_free();
+			cl = lou_getEmphClasses(h_line + 2);
+			printf("E %d\n", cl != NULL);
+			if (cl) free((void *)cl);
 		} else if (h_line[0] == 'A') {
 			widechar in[2] = { 'a', 0 }, out[8];
 			int il = 1, ol = 8;
